@@ -170,7 +170,7 @@ def rule_all_access_through_lock(ctx, f, rid):
     for b, c in bad:
         ctx.ob(rid, "%s|%s" % (strip_generics(b.path), strip_generics(c.callee) if c else "store"), False,
                "self.children is used other than as receiver of read()/write()", site=c.span if c else b.raw["span"]["at"])
-    ctx.floor(rid, "children lock acquisitions in the crate", n - len(bad), 9)
+    ctx.floor(rid, "children lock acquisitions in the crate", n - len(bad), 6)
     if not bad:
         ctx.ob(rid, "crate-wide", True, "%d uses of the children field, all lock acquisitions" % n)
 
